@@ -58,7 +58,7 @@ PROPS = {
     "C16": {"quick": [J("^vhC16_.*2$", samples=2, timeshim=True), J("^vhC14_ctx_L1$", samples=2, timeshim=True, only_msgs="long after the subscription context"), J("^vhC05_multi_T4$", samples=1, only_msgs="^ThrottleWhen|^SampleWhen|^BufferWhen")], "thorough": [J("^vhC16_(timeout|throttle)_n3$|^vhC16_(sample|delay)_n2$", samples=2, timeshim=True, solver_timeout_ms=60000, solver="z3-new"), J("^vhC16_interval_c2$|^vhC16_overlap_2$|^vhC16_delayctx_2$", samples=2, timeshim=True, xcheck="z3-new", xrate=5)], "bounds": {}, "assumptions": []},
     "C10": {"quick": [J("^vhC10_seq_.*_K4$", samples=3), J("^vhC10_conc(via)?_", preempt=0, samples=1), J("^vhC10_conc_(behavior|unicast|async)|^vhC10_concsub_", preempt=1, samples=1)], "thorough": [J("^vhC10_seq_.*_K5$", samples=6), J("^vhC10_conc(via)?_", preempt=0, samples=1), J("^vhC10_conc_|^vhC10_concsub_", preempt=2, samples=1, maxpaths=3000000)],
             "bounds": {"ops_quick": 4, "ops_thorough": 5, "subscribers": 3}, "assumptions": []},
-    "C04": {"quick": [J("^vhC04_(ref_L5|variants_L2|blocking_L2|chain_L2|pipe_L2|nilerr_L2)$", samples=8), J("^vhC12_overlap_L2$", samples=2, only_msgs="of two overlapping subscriptions"), J("^vhC05_arity_s4$", samples=2), J("^vhC05_multi_T4$", samples=1, only_msgs="^WindowWhen|^BufferWhen|^SampleWhen|^ThrottleWhen")], "thorough": [J("^vhC04_(ref_L6|variants_L3|blocking_L3|chain_L3|pipe_L3|nilerr_L3)$", samples=16, xcheck="z3-new", xrate=50)],
+    "C04": {"quick": [J("^vhC04_(ref_L5|variants_L2|blocking_L2|chain_L2|pipe_L2|nilerr_L2|average)$", samples=8), J("^vhC12_overlap_L2$", samples=2, only_msgs="of two overlapping subscriptions"), J("^vhC05_arity_s4$", samples=2), J("^vhC05_multi_T4$", samples=1, only_msgs="^WindowWhen|^BufferWhen|^SampleWhen|^ThrottleWhen")], "thorough": [J("^vhC04_(ref_L6|variants_L3|blocking_L3|chain_L3|pipe_L3|nilerr_L3|average)$", samples=16, xcheck="z3-new", xrate=50)],
             "bounds": {"script_length_quick": 5, "script_length_thorough": 6}, "assumptions": []},
 }
 
